@@ -60,6 +60,10 @@ func loadKnownFindings() []knownFinding {
 				if j := strings.Index(r[1:], `"`); j >= 0 {
 					kf.Exclude = r[1 : j+1]
 				}
+			} else if strings.HasPrefix(r, "`") {
+				if j := strings.Index(r[1:], "`"); j >= 0 {
+					kf.Exclude = r[1 : j+1]
+				}
 			}
 		}
 		out = append(out, kf)
